@@ -114,3 +114,27 @@ Proof.
 Qed.
 
 End DenseLin.
+
+(* ---------- dense adjoint: <y, M x> = <M^T y, x> with the library's own transpose ---------- *)
+Section DenseAdjoint.
+Context {A : Arith}.
+Variable RL : RingLaws A.
+Notation T := (T A).
+
+Theorem multiply_adjoint_lemma (m : matrix A) (x y : list T) : wf m -> length x = cols m -> length y = rows m ->
+  exists t u w d, transpose m = Ok t /\ multiply m x = Ok u /\ multiply t y = Ok w /\ dot y u = Ok d /\ dot w x = Ok d.
+Proof.
+  intros Hwf Hx Hy.
+  destruct (transpose_spec_lemma A m Hwf) as (t & Ht & Hwt & Hrt & Hct & Het).
+  exists t, (dmulv (entry m) (rows m) (cols m) x), (dtmulv (entry m) (rows m) (cols m) y),
+         (dot_raw y (dmulv (entry m) (rows m) (cols m) x)).
+  split; [exact Ht|]. split; [now apply multiply_is_dmulv|].
+  split.
+  - rewrite multiply_is_dmulv by (auto; congruence). rewrite Hrt, Hct. f_equal.
+    unfold dtmulv, dmulv. apply map_ext_in. intros j Hj. apply in_seq in Hj.
+    apply sum_n_ext. intros i Hi. rewrite Het by lia. reflexivity.
+  - unfold dot. unfold dmulv at 1. rewrite map_length, seq_length, Hy, Nat.eqb_refl.
+    unfold dtmulv at 1. rewrite map_length, seq_length, Hx, Nat.eqb_refl.
+    split; auto. f_equal. symmetry. now apply (dense_adjoint RL).
+Qed.
+End DenseAdjoint.
